@@ -89,7 +89,7 @@ def run(tier):
     b = common.build()
     cs = cfgs(tier)
     vocab_fields, table_drift = l3.vocabulary_fields(b)
-    rp = l3.Replay(b, v, cs, "checks.c01:judge", variants=2 if tier == "quick" else 3)
+    rp = l3.Replay(b, v, cs, "checks.c01:judge", variants=2 if tier == "quick" else 3, pad_arrays=True)
     cov = l3.EdgeCoverage(rp.sink)
     dump = l3.grammar_dump()
     all_edges = l3.grammar_edges(dump)
